@@ -207,6 +207,11 @@ type callRec struct {
 	G     string   `json:"g"`
 	Elems []string `json:"elems"`
 	Ev    []event  `json:"ev"`
+	// served binding only: what the client saw ("grpc:NotFound", "http:404") and
+	// whether the store differed after the call
+	Raw    string `json:"raw,omitempty"`
+	Effect bool   `json:"effect,omitempty"`
+	Ms     [2]int `json:"ms,omitempty"` // duration of the call and of restoring the baseline after it
 }
 
 // setGraph names the graph in the request if the request message has a field
@@ -382,25 +387,14 @@ func (h *handler) invoke(client reflect.Value, name, kind string, ctx context.Co
 	return reply{code: "BAD_KIND"}
 }
 
-func (h *handler) Handle(req map[string]interface{}) interface{} {
-	resp := map[string]interface{}{"i": req["i"]}
+// accountsConfig builds accounts.Config through its exported fields, exactly as
+// a deployment's configuration file does: mode "open" leaves it empty, "basic"
+// configures the basic-auth users, "casbin" adds a casbin model/policy pair
+// written to files. The returned function removes the files.
+func (h *handler) accountsConfig(req map[string]interface{}) (accounts.Config, func(), error) {
 	mode, _ := req["mode"].(string)
-	spied, _ := req["spied"].(bool)
-	transports := strs(req["transports"])
-	if len(transports) == 0 {
-		transports = []string{"grpc", "gateway"}
-	}
-	credvs := strs(req["creds"])
-	if len(credvs) == 0 {
-		credvs = h.credvs
-	}
-	only := map[string]bool{}
-	for _, m := range strs(req["only"]) {
-		only[m] = true
-	}
-
-	// ---- configuration, through the exported fields as a deployment does
 	cfg := accounts.Config{}
+	cleanup := func() {}
 	if mode != "open" {
 		ba := accounts.BasicAuth{}
 		for _, u := range h.users {
@@ -417,23 +411,49 @@ func (h *handler) Handle(req map[string]interface{}) interface{} {
 		for _, r := range rules {
 			t := strs(r)
 			if len(t) != 3 {
-				resp["err"] = "bad policy rule"
-				return resp
+				return cfg, cleanup, fmt.Errorf("bad policy rule")
 			}
 			fmt.Fprintf(&sb, "p, %s, %s, %s\n", t[0], t[1], t[2])
 		}
 		if err := os.WriteFile(mp, []byte(h.model), 0600); err != nil {
-			resp["err"] = err.Error()
-			return resp
+			return cfg, cleanup, err
 		}
 		if err := os.WriteFile(pp, []byte(sb.String()), 0600); err != nil {
-			resp["err"] = err.Error()
-			return resp
+			os.Remove(mp)
+			return cfg, cleanup, err
 		}
-		defer os.Remove(mp)
-		defer os.Remove(pp)
+		cleanup = func() { os.Remove(mp); os.Remove(pp) }
 		cfg.Access = &accounts.AccessConfig{Casbin: &accounts.CasbinAccess{Model: mp, Policy: pp}}
 	}
+	return cfg, cleanup, nil
+}
+
+func (h *handler) Handle(req map[string]interface{}) interface{} {
+	if sv, _ := req["served"].(bool); sv {
+		return h.handleServed(req) // the live server started by server.Serve (served.go)
+	}
+	resp := map[string]interface{}{"i": req["i"]}
+	spied, _ := req["spied"].(bool)
+	transports := strs(req["transports"])
+	if len(transports) == 0 {
+		transports = []string{"grpc", "gateway"}
+	}
+	credvs := strs(req["creds"])
+	if len(credvs) == 0 {
+		credvs = h.credvs
+	}
+	only := map[string]bool{}
+	for _, m := range strs(req["only"]) {
+		only[m] = true
+	}
+
+	// ---- configuration, through the exported fields as a deployment does
+	cfg, cleanup, err := h.accountsConfig(req)
+	if err != nil {
+		resp["err"] = err.Error()
+		return resp
+	}
+	defer cleanup()
 	rec := h.rec
 	if spied {
 		cfg.VerifWrap(
